@@ -96,4 +96,13 @@ def oracle(case, ires, sres):
     n = _decl(op, extra, data)
     if n is not None and n != ulen:
         return ("C09/%s/declared-length" % name, "declared length %s of a %d-octet unit" % (n, ulen))
+    # "N is the length the unit itself declares AND THE DECODED OBJECT REPORTS ... units packed back to back can be split purely
+    # by the reported lengths": registry entries that carry `reported_len` (view -> the lengths the decoded object reports:
+    # packet_len, size of pack()) are held to it
+    rep = next((d.get("reported_len") for d in xcut.all_decoders() if d["op"] == op and d["extra"] == extra), None)
+    if rep is not None:
+        got = rep(ires[1:])
+        if any(x != ulen for x in got):
+            return ("C09/%s/reported-length" % name, "the decoded object reports length(s) %s; the unit declares and occupies %d octets, so the next "
+                    "unit of a back-to-back buffer would be looked for at the wrong offset (unit %s)" % (got, ulen, unit[:24]))
     return None
